@@ -5,9 +5,9 @@
 set -u
 W=$1; NAME=$2; shift 2
 cd "$W" || exit 2
-git diff -- modules > /tmp/seed_$NAME.diff
+git add -N modules 2>/dev/null; git diff -- modules > /tmp/seed_$NAME.diff; git reset -q
 [ -s /tmp/seed_$NAME.diff ] || cp patch.diff /tmp/seed_$NAME.diff
-git checkout -q -- modules
+git checkout -q -- modules; git clean -fdq modules
 echo "--- demo on unmodified tree"; PYTHONPATH=$W/modules timeout 300 /venv/bin/python demo.py > /tmp/seed_$NAME.demo0 2>&1; D0=$?; tail -2 /tmp/seed_$NAME.demo0; echo "exit=$D0"
 git apply /tmp/seed_$NAME.diff || { echo "PATCH DOES NOT APPLY"; exit 2; }
 echo "--- tests with change"; PYTHONPATH=$W/modules /venv/bin/python -m pytest -q -p no:cacheprovider 2>&1 | tail -1
